@@ -226,8 +226,8 @@ def remove (st : ArgsSt) (a : ArgIn) : ArgsSt × ArgsOut :=
       | some k => (⟨st.lst.eraseIdx k, all'⟩, .none)
 
 /-- `pop(i)`: `item = super().pop(i)` (`IndexError`, nothing changed);
-`j = self.all.index(item)` (`ValueError`, list already shortened);
-`return self.all.pop(j)` – the entry *of `.all`*, i.e. the first textual twin. -/
+`j = self.all.index(item)` (`ValueError`, list already shortened); `self.all.pop(j)` – the
+first textual twin leaves `.all`; `return item` – the list item itself. -/
 def pop (st : ArgsSt) (i : Int) : ArgsSt × ArgsOut :=
   match pyIndex st.lst.length i with
   | none => (st, .indexError)
@@ -238,10 +238,7 @@ def pop (st : ArgsSt) (i : Int) : ArgsSt × ArgsOut :=
       let lst' := st.lst.eraseIdx k
       match idxOfTxt ArgItem.txt (ser item) st.all with
       | none => (⟨lst', st.all⟩, .valueError)
-      | some j =>
-        match st.all[j]? with
-        | none => (⟨lst', st.all⟩, .valueError)     -- unreachable: `j < len`
-        | some r => (⟨lst', st.all.eraseIdx j⟩, .item r)
+      | some j => (⟨lst', st.all.eraseIdx j⟩, .item (.grp item))
 
 def reverse (st : ArgsSt) : ArgsSt × ArgsOut := (⟨st.lst.reverse, st.all.reverse⟩, .none)
 
@@ -299,6 +296,24 @@ def insert (st : ArgsSt) (i : Int) (a : ArgIn) : ArgsSt × ArgsOut :=
       | none => st.lst
     let r := bookkeep lst' st.all i it
     (⟨lst', r.1⟩, r.2)
+
+/-- `pop` before its repair: `item = super().pop(i)` (`IndexError`, nothing changed);
+`j = self.all.index(item)` (`ValueError`, list already shortened);
+`return self.all.pop(j)` – the entry *of `.all`*, i.e. the first textual twin. -/
+def pop (st : ArgsSt) (i : Int) : ArgsSt × ArgsOut :=
+  match pyIndex st.lst.length i with
+  | none => (st, .indexError)
+  | some k =>
+    match st.lst[k]? with
+    | none => (st, .indexError)        -- unreachable: `k < len`
+    | some item =>
+      let lst' := st.lst.eraseIdx k
+      match idxOfTxt ArgItem.txt (ser item) st.all with
+      | none => (⟨lst', st.all⟩, .valueError)
+      | some j =>
+        match st.all[j]? with
+        | none => (⟨lst', st.all⟩, .valueError)     -- unreachable: `j < len`
+        | some r => (⟨lst', st.all.eraseIdx j⟩, .item r)
 end Legacy
 
 end Args
